@@ -11,7 +11,8 @@ ASSUMPTIONS = [
     "node made in a step is one the statement allows (caused by one of the relay's two peers or by tunnel loss, valid transition, "
     "created on a live tunnel, forwarding records only on relays) and whether a forward was permitted",
     "Established -> Requested is accepted when caused by one of the relay's own two peers (the code re-requests on every retry)",
-    "v2 control-message encoding only; am_relay is not changed by reload in the scenario",
+    "v2 control-message encoding only; relay.am_relay of the relay node is turned off and on again by configuration reloads in a "
+    "quarter of the traces (am is a state variable of Relay.tla: forwarding needs am = on at the moment of forwarding)",
 ]
 
 
@@ -19,11 +20,11 @@ def run(ctx):
     if os.environ.get('VERIF_SKIP_MC'):
         ctx.states = 1
     else:
-        # quick: at most one relay record in the world (~30 s); thorough: two (~15 M transitions, 20 min on 8 workers)
+        # quick: at most one relay record in the world (~30 s); thorough: two (~30 M transitions, 40 min on 8 workers)
         cfg = open(os.path.join(os.path.dirname(os.path.dirname(os.path.dirname(os.path.abspath(__file__)))), 'spec', 'MC_Relay.cfg')).read()
         if ctx.quick:
             cfg = cfg.replace('MaxRecs = 2', 'MaxRecs = 1')
-        ctx.tlc('MC_Relay', 'MC_Relay.cfg', timeout=3000, workers=8, cfgtext=cfg)
+        ctx.tlc('MC_Relay', 'MC_Relay.cfg', timeout=6000, workers=8, cfgtext=cfg)
     res = ctx.gotest('e2e', 'TestVerif_C39', tags='verif e2e_testing', also=('net',), timeout=600 if ctx.quick else 1500)
     tf = os.path.join(res['_outdir'], 'trace_relay.ndjson')
     fails, ok = ctx.validate_traces('TraceMC_Relay', 'Trace_Relay.cfg', tf, max_fail=8)
@@ -51,7 +52,8 @@ def run(ctx):
                       (ln.get('n'), json.dumps({k: ln.get(k) for k in ('ev', 's', 'typ', 'why')}),
                        json.dumps(prev['recs'] if prev else None), json.dumps(ln.get('recs')), ln.get('fwd')) +
                       (' -- relay index table still holds %s (index, tunnel; 0 = a tunnel the node no longer has)' % stale if stale else ''), fl)
-    ctx.require_actions('ev:Recv', 'typ:control', 'typ:relay', 'hostile-control', 'churn:relay-closes-one-of-two', 'churn:relay-indexes-before-close')
+    ctx.require_actions('ev:Recv', 'typ:control', 'typ:relay', 'hostile-control', 'churn:relay-closes-one-of-two', 'churn:relay-indexes-before-close',
+                        'reload:am_relay-false', 'relayed-datagram-while-am_relay-off')
 
 
 META = {
@@ -64,5 +66,6 @@ META = {
             'specification allows: changes only by one of the relay\'s two peers or tunnel loss, along valid transitions, forwarding '
             'only on a relay, only onto an established onward leg negotiated by the sender, never back or to itself.',
     'design_ref': '3.5 C39',
-    'note': 'Permission (monitor) specification rather than a predictive model; v2 encoding; trusts the projection of relay records.',
+    'note': 'Permission (monitor) specification rather than a predictive model; v2 encoding; trusts the projection of relay records. '
+            'Found and fixed: forwarding continued after a reload turned relay.am_relay off (known_findings.jsonl, fixed: C39 78a4ecc).',
 }
